@@ -18,7 +18,8 @@ def plan(ctx):
             dict(gen="g4b", count=40 * k, modes=["plain"], nexec=0),
             dict(gen="g5", count=20 * k, modes=["plain"], nexec=0),
             dict(gen="g7", count=40 * k, modes=["metrics"], nexec=0),
-            dict(gen="g7occ", count=30 * k, modes=["metrics"], nexec=0)]
+            dict(gen="g7occ", count=30 * k, modes=["metrics"], nexec=0),
+            dict(gen="g7mrg", count=40 * k, modes=["metrics"], nexec=0)]
 
 
 def nontrivial(rec):
